@@ -169,6 +169,8 @@ def run_case(c):
     g = Genuine(w, spec)
     mw.install(w)
     da.getDongle = lambda debug: mw.get_dongle(w)()
+    import ledgerblue.comm
+    ledgerblue.comm.getDongle = da.getDongle
     d = workdir()
     Platform.set(Platform.LEDGER if plat == "ledger" else Platform.SGX,
                  {} if plat == "ledger" else {"sgx_host": "h", "sgx_port": 1})
